@@ -78,6 +78,30 @@ func resolveTypeIn(g *Gen, pkg *packages.Package, text string) (types.Type, erro
 	case "Loc":
 		return tyLocT, nil
 	}
+	if text == "struct{}" {
+		return types.NewStruct(nil, nil), nil
+	}
+	if strings.HasPrefix(text, "map[") {
+		depth := 0
+		for i := 3; i < len(text); i++ {
+			if text[i] == '[' {
+				depth++
+			} else if text[i] == ']' {
+				depth--
+				if depth == 0 {
+					k, err := resolveTypeIn(g, pkg, text[4:i])
+					if err != nil {
+						return nil, err
+					}
+					v, err := resolveTypeIn(g, pkg, text[i+1:])
+					if err != nil {
+						return nil, err
+					}
+					return types.NewMap(k, v), nil
+				}
+			}
+		}
+	}
 	if strings.HasPrefix(text, "[]") {
 		el, err := resolveTypeIn(g, pkg, text[2:])
 		if err != nil {
@@ -706,6 +730,13 @@ func (c *SpecCtx) quant(e *EQuant) SVal {
 	if e.Forall {
 		q = "forall"
 	}
+	var names []string
+	for _, qv := range e.Vars {
+		names = append(names, sub.vars[qv.Name].T.S)
+	}
+	if pats := inferPatterns(body.S, names); len(pats) > 0 {
+		return SVal{T: T(SBool, fmt.Sprintf("(%s (%s) (! %s %s))", q, strings.Join(decls, " "), body.S, strings.Join(pats, " "))), Ty: tyBoolT}
+	}
 	return SVal{T: T(SBool, fmt.Sprintf("(%s (%s) %s)", q, strings.Join(decls, " "), body.S)), Ty: tyBoolT}
 }
 
@@ -811,6 +842,36 @@ func (c *SpecCtx) callExpr(e *ECall) SVal {
 			l = sArr(l)
 		}
 		return SVal{T: app(SBool, ">", app("Int", "root", l), c.old.ctr), Ty: tyBoolT}
+	case "trim", "lower", "upper":
+		// uninterpreted content functions matching strings.TrimSpace / ToLower / ToUpper
+		if !need(1) {
+			return SVal{}
+		}
+		x := argv(0)
+		xs := x.T
+		if x.Ty != tyBSeq {
+			xs = g.absBytes(c.st, xs)
+		}
+		fn := map[string]string{"trim": "str_trimspace", "lower": "str_tolower", "upper": "str_toupper"}[name]
+		g.useByteSeq()
+		g.declareFun(fn, []string{SBSeq}, SBSeq)
+		return SVal{T: app(SBSeq, fn, xs), Ty: tyBSeq}
+	case "contains", "hasprefix", "equalfold":
+		if !need(2) {
+			return SVal{}
+		}
+		x, y := argv(0), argv(1)
+		xs, ys := x.T, y.T
+		if x.Ty != tyBSeq {
+			xs = g.absBytes(c.st, xs)
+		}
+		if y.Ty != tyBSeq {
+			ys = g.absBytes(c.st, ys)
+		}
+		fn := "str_" + name
+		g.useByteSeq()
+		g.declareFun(fn, []string{SBSeq, SBSeq}, SBool)
+		return SVal{T: app(SBool, fn, xs, ys), Ty: tyBoolT}
 	case "avail":
 		// avail(r): ghost number of unread bytes available on the stream behind reader r
 		if !need(1) {
